@@ -9,6 +9,22 @@ sys.path.insert(0, VERIF)
 from harness.core import CHECKS  # noqa
 
 TABLE = {
+    "C03": dict(
+        category="exploration", design_ref="3/C03",
+        technique="Hypothesis-generated signing plans, round-trip oracle (sign with joserfc, verify with the public key form, compare payload octets and header members), detach/restore metamorphic check",
+        text="~6000 generated sign/verify round trips per quick run over 14 algorithms, keys built from generated scalars (special short-coordinate scalars weighted in), "
+             "3 serializations, b64 absent/true/false, protected/unprotected placement, key given as key / key set / callable and imported from JWK/PEM/DER. "
+             "Exploration: samples the configuration space, no exhaustiveness claim.",
+        note="keys are derived with `cryptography` from generated material; production with b64=false and non-UTF-8 payload is DONT_CARE",
+    ),
+    "C07": dict(
+        category="exploration", design_ref="3/C07",
+        technique="differential testing in both directions against an independent RFC 7515/7518/8037/8812/7797 implementation (/verif/ref), generated header spellings",
+        text="joserfc-signed tokens must verify under a strict independent verifier that only receives the exported public JWK; reference-signed tokens with "
+             "generated protected-header spellings (whitespace, member order, escapes, raw UTF-8) must verify in joserfc with identical payload/header. "
+             "Symmetric wire-format errors invisible to round trips (PSS salt/MGF, hash choice, R||S layout, signing input) are visible here. Exploration over generated cases.",
+        note="trusts /verif/ref (self-tested against RFC 7515/7520/7797 vectors at every start) and the primitives of pycryptodome/hashlib/pure-Python EC",
+    ),
     "C19": dict(
         category="exploration", design_ref="3/C19",
         technique="exhaustive enumeration (len<=2) + Hypothesis generation, differential against an independent codec, round-trip and must-raise oracles",
